@@ -1,6 +1,7 @@
 //! Correspondence harness for orx-parallel: runs the real library (feature `verif-hooks`) on
 //! generated cases and prints, per case, the query for the Lean driver, what the
 //! implementation did, and what the `std::iter` oracle says.
+mod canary;
 mod case;
 mod chains;
 mod exec;
